@@ -124,7 +124,7 @@ CHECKS = {
         category="proof",
         text="Theorems for every depth / number of scales and every spatial size from the architectural minimum (no upper bound): UnetModel2d, NormUnetModel2d (L <= 4), MWCNN, DIDN (any number of DUBs and reconstruction convolutions), UnetModel3d and NormUnetModel3d return exactly the spatial size they are given "
              "(2-D and 3-D statements obtained from a one-axis induction and a proof that every layer acts on the axes separately when the padding indices are the canonical ones). The padding arithmetic ((n-1)|15)+1 with floor/ceil halves and its inverse slice, pad_to_pow_of_2 and its inverse crop, the padding-index maps and crop_to_shape are regenerated from the source on every run; "
-             "the layer sequences are a hand model tied by exact shape-trace correspondence (forward hooks on every convolution / transposed convolution / DWT / IWT / PixelShuffle of the real modules). PARTIAL: the unrolled reconstruction models around these blocks and 'finite values' are enumerated over sizes (68 zoo entries), not proved.",
+             "the layer sequences of UnetModel2d / UnetModel3d (constructor module lists with their multiplicities, layer hyperparameters, the two loops of forward) are regenerated too and proved equal to the modelled program for every depth; those of MWCNN and DIDN are a hand model tied by exact shape-trace correspondence (forward hooks on every convolution / transposed convolution / DWT / IWT / PixelShuffle of the real modules). PARTIAL: the unrolled reconstruction models around these blocks and 'finite values' are enumerated over sizes (68 zoo entries), not proved.",
         note=PROOF_NOTE + "Modelled, not verified: torch's layer shape formulas and the reflect-padding precondition (oracle contract, validated by the trace correspondence); channel counts; the permute/reshape bookkeeping of the unrolled models (exercised end to end only).",
         technique="Coq proof (induction over depth on one axis + axis-decomposition lemma; bit lemma for the multiple-of-16 padding) over regenerated padding arithmetic + exact shape-trace correspondence + zoo enumeration",
         design="§6 C17"),
